@@ -64,7 +64,7 @@ def run(chk):
     cases = [("vparse", [w]) for w in ws]
     impl, model = chk.run_both(cases)
     chk.compare("exhaustive-short", cases, impl, model)
-    chk.extra["exhaustive"] = {"alphabet": [a.hex() for a in EXH], "maxlen": 3 if chk.tier == "quick" else 4, "strings": len(ws)}
+    chk.extra["exhaustive_short_strings"] = {"alphabet": [a.hex() for a in EXH], "maxlen": 3 if chk.tier == "quick" else 4, "strings": len(ws)}
     # 3. near misses: one or two edits of a valid rendering
     cases = []
     for _ in range(chk.n(12000, 240000)):
